@@ -278,6 +278,12 @@ func cmdCheck(args []string) {
 				}
 				continue
 			}
+			if o.Kind == "scan" {
+				path := writeReplay(replayDir, id, o.Name, map[string]interface{}{"obligation": o.Name, "clause": o.Text, "position": o.Pos, "finding": o.Detail, "build_tags": r.Tags,
+					"replay_note": "a frame clause checked on the SSA of the current sources failed; the instruction is named under 'finding'"})
+				viols = append(viols, viol{o.Name + " [" + r.Tags + "]", path, " no-failing-input-found"})
+				continue
+			}
 			path, replayed := replayObligation(*repo, replayDir, id, r, o, opt)
 			suffix := ""
 			if !replayed {
